@@ -610,6 +610,11 @@ func (E *Engine) encodeLemmas(p string) (enc *FnEnc, err error) {
 			hasTable = true
 		}
 	}
+	for _, sf := range E.CS.StableFields {
+		if hasProp(sf.Props, p) {
+			hasTable = true
+		}
+	}
 	if len(ls) == 0 && !hasTable {
 		return nil, nil
 	}
@@ -637,6 +642,7 @@ func (E *Engine) encodeLemmas(p string) (enc *FnEnc, err error) {
 		enc.obls = append(enc.obls, o)
 	}
 	E.tableObligations(p, enc)
+	E.stableObligations(p, enc)
 	return enc, nil
 }
 
